@@ -6,7 +6,7 @@ import json, os
 ROOT = os.path.dirname(os.path.dirname(os.path.abspath(__file__)))
 notes = json.load(open(os.path.join(ROOT, "seeded", "notes.json")))
 rows, caught, blind = [], 0, {}
-for i in sorted(notes):
+for i in sorted(notes, key=lambda k: (k[:3], int(k.split("-m")[1]))):
     n = notes[i]
     mp = os.path.join(ROOT, "seeded", i, "meta.json")
     m = json.load(open(mp)) if os.path.exists(mp) else {}
